@@ -98,6 +98,8 @@ fn main() {
         "C06" => go(props::c06::C06, tier, seed, &replay),
         "C07" => go(props::c07::C07, tier, seed, &replay),
         "C09" => go(props::c09::C09, tier, seed, &replay),
+        "C08" => props::c08::run(tier, seed, replay.as_deref()),
+        "C10" => props::c10::run(tier, seed, replay.as_deref()),
         "C11" => props::c11::run(tier, seed, replay.as_deref()),
         "C12" => go(props::c12::C12, tier, seed, &replay),
         "C13" => go(props::c13::C13, tier, seed, &replay),
